@@ -81,15 +81,17 @@ func revOf(c cfgKind, t int, fn string) int {
 // different snaps (boottest.MockDevice uses one name for both).
 type uc16Device struct{}
 
-func (uc16Device) RunMode() bool          { return true }
-func (uc16Device) Classic() bool          { return false }
-func (uc16Device) Kernel() string         { return "pc-kernel" }
-func (uc16Device) Base() string           { return "core18" }
-func (uc16Device) Gadget() string         { return "pc" }
-func (uc16Device) HasModeenv() bool       { return false }
-func (uc16Device) IsCoreBoot() bool       { return true }
-func (uc16Device) IsClassicBoot() bool    { return false }
-func (uc16Device) Model() *asserts.Model  { panic("uc16Device.Model must not be needed without modeenv") }
+func (uc16Device) RunMode() bool       { return true }
+func (uc16Device) Classic() bool       { return false }
+func (uc16Device) Kernel() string      { return "pc-kernel" }
+func (uc16Device) Base() string        { return "core18" }
+func (uc16Device) Gadget() string      { return "pc" }
+func (uc16Device) HasModeenv() bool    { return false }
+func (uc16Device) IsCoreBoot() bool    { return true }
+func (uc16Device) IsClassicBoot() bool { return false }
+func (uc16Device) Model() *asserts.Model {
+	panic("uc16Device.Model must not be needed without modeenv")
+}
 
 // ---- the bootloader object ------------------------------------------------------
 
@@ -190,7 +192,7 @@ func (b *envBL) InstallBootConfig(string, *bootloader.Options) error {
 	return errors.New("not used by the harness")
 }
 func (b *envBL) ExtractKernelAssets(snap.PlaceInfo, snap.Container) error { return nil }
-func (b *envBL) RemoveKernelAssets(snap.PlaceInfo) error                 { return nil }
+func (b *envBL) RemoveKernelAssets(snap.PlaceInfo) error                  { return nil }
 
 // grubBL adds bootloader.ExtractedRunKernelImageBootloader (kernel.efi and
 // try-kernel.efi symlinks; each link operation is one boot-state write).
@@ -541,15 +543,15 @@ func (d *device) firmware() fwResult {
 // ---- one boot attempt ---------------------------------------------------------------
 
 type bootObs struct {
-	Attempt    int    `json:"attempt"`
-	Kernel     string `json:"kernel,omitempty"`
-	KernelTry  bool   `json:"kernel_try,omitempty"`
-	Base       string `json:"base,omitempty"`
-	BaseTry    bool   `json:"base_try,omitempty"`
-	MountedK   string `json:"mounted_kernel,omitempty"`
-	Outcome    string `json:"outcome"` // userspace | failed@<stage> | firmware-fallback | initramfs-reboot | stopped
-	Err        string `json:"err,omitempty"`
-	PS         *pstate `json:"-"` // persistent state after the attempt
+	Attempt   int     `json:"attempt"`
+	Kernel    string  `json:"kernel,omitempty"`
+	KernelTry bool    `json:"kernel_try,omitempty"`
+	Base      string  `json:"base,omitempty"`
+	BaseTry   bool    `json:"base_try,omitempty"`
+	MountedK  string  `json:"mounted_kernel,omitempty"`
+	Outcome   string  `json:"outcome"` // userspace | failed@<stage> | firmware-fallback | initramfs-reboot | stopped
+	Err       string  `json:"err,omitempty"`
+	PS        *pstate `json:"-"` // persistent state after the attempt
 }
 
 const (
